@@ -29,7 +29,10 @@ MANIFEST = {
 MODULES = ["PrimaiteModel.Props.C01"]
 EXE = "drv_c01"
 QUICK = ["data_manipulation", "basic_firewall", "test_primaite_session", "wireless_wan_network_config", "uc7_config"]
-SKIP = {"bad_primaite_session", "no_nodes_links_agents_network", "eval_only_primaite_session", "multi_agent_session"}
+# not usable as single-agent gym scenarios: malformed on purpose (bad_*, eval_only: agent_settings null), no nodes, MARL configs with
+# two proxy agents (PrimaiteGymEnv drives only the first; they belong to PrimaiteRayMARLEnv), a config that needs a plug-in node type
+SKIP = {"bad_primaite_session", "no_nodes_links_agents_network", "eval_only_primaite_session", "multi_agent_session",
+        "data_manipulation_marl", "extended_config"}
 
 
 def _cases(ctx: Ctx):
@@ -46,7 +49,7 @@ def _cases(ctx: Ctx):
             ctx.count("scenario-given-a-minimal-proxy-agent")
         else:
             yield name, "shipped-map", cfg
-        for v in range(ctx.scale(2, 4)):
+        for v in range(ctx.scale(2, 3)):
             try:
                 aug = envrig.augmented(cfg, rng.fork(f"{name}-aug{v}"), ctx.scale(60, 150))
             except Exception as e:
@@ -60,7 +63,7 @@ def _generated(ctx: Ctx):
     """Members of the generated scenario families (harness/gen/scenario.py: switched LAN, routed, firewall+DMZ)."""
     from harness.gen import scenario as gscen
     rng = ctx.rng.fork("gen-scenarios")
-    for k in range(ctx.scale(4, 30)):
+    for k in range(ctx.scale(4, 18)):
         fam = gscen.FAMILIES[k % len(gscen.FAMILIES)]
         try:
             cfg = gscen.gen_scenario(rng.fork(f"g{k}"), size=1 + k % 3, family=fam, shadowing=(k % 2 == 0))
@@ -117,7 +120,7 @@ def run(ctx: Ctx):
     import itertools
     for name, variant, cfg in itertools.chain(_cases(ctx), _generated(ctx)):
         max_len = rng.choice([7, 19, 33])
-        lines, impl, fails, log = envrig.run_case(cfg, rng.fork(name + variant), episodes=ctx.scale(3, 5),
+        lines, impl, fails, log = envrig.run_case(cfg, rng.fork(name + variant), episodes=ctx.scale(3, 4),
                                                   steps_per_episode=max_len + 3, max_len=max_len)
         ctx.count("case:" + variant.split("-")[0])
         ctx.cov["traces_validated_against_impl"] += 1
